@@ -157,4 +157,17 @@ PROPS = {
         "rule": "One evaluation = one pool of diagrams sharing nodes (built by a random operation history in one long-lived builder) on which 20-70 queries of different scratch types are interleaved: unsmoothed_wmc in 8 semiring instances, evaluate, count_nodes, semantic_hash over 3 primes, cached_semantic_hash (one prime per builder, S3), and for BDDs marginal_map, meu, bb::<Real>, bb::<ExpectedUtility>, user bdd_fold with usize and i64, Fold::mut_fold, smooth, condition, condition_model, exists; operands are chosen as f, !f, recent results and the previous operand again. Checks: (a) a repeated (diagram, query) returns the first answer (also asked twice in a row); (b) every 3rd query (every query in thorough) is asked once on a FRESH builder that replays the construction history and must give the identical answer (floats compared bit-exactly through their shortest round-trip print, diagrams through their isomorphism class); (c) after EVERY public call a scan over all nodes reachable from all pool roots asserts is_scratch_cleared(). BDD (both caches), compressed SDD and top-down decision-DNNF pools. Run in the `mon` profile so rsdd's own debug assertions on scratch state are live. Every pool is non-trivial; distinct = distinct (history, queries) inputs.",
         "assumptions": ASSUME_COMMON + ["S3: a builder's nodes are only ever cached-hashed with one prime and one weight map"],
     },
+    "C11": {
+        "profiles": {"quick": ["mon"], "thorough": ["mon", "monrel"]},
+        "scale": {"quick": 1, "thorough": 30},
+        "floors": {
+            "quick": {"hash_checks": 20000, "bdd_representations": 2000, "sdd_representations": 1300, "ddnnf_representations": 300,
+                      "semantic_sdd_ops": 8000, "eq_on_equal_functions": 50000, "semantic_ddnnf_compilations": 450,
+                      "semantic_ddnnf_conditionings": 2000, "semantic_sdd_compile_cnf": 500,
+                      "untrimmed_nodes_denoting_literal_or_constant": 100},
+            "thorough": {"hash_checks": 600000},
+        },
+        "rule": "One evaluation = one hash or one semantic-builder operation. (hash) For a function f on <= 7 variables (parity, ite(x,g,!g), threshold, random, CNF-derived) and each prime in {U32_TINY, U32_SMALL, U64_LARGEST} the defining sum over the models of f of the product of create_semantic_hash_map weights is computed from the truth table with the harness's own modular arithmetic and compared with semantic_hash of BDDs under 3 random orders, SDDs under 2 random vtrees and top-down decision-DNNFs under 2 random orders (so all representations agree with each other); the negation must hash to 1 - h; cached_semantic_hash (asked twice, and through a second construction history) must equal it (one prime per builder, S3); the hash weights must sum to one. (semantic builders) SemanticSddBuilder<P> is driven through random and/or/negate/condition/exists histories and compile_cnf, SemanticDecisionNNFBuilder<P> through compile_cnf_topdown and condition: for every prime eq() must be true on every pair of pool members (both polarities, both argument orders) whose oracle truth tables are equal; over U64_LARGEST every returned diagram must have the right truth table, under 32-bit primes a wrong table is a hash collision and only recorded (S4). Non-trivial = function neither constant nor literal; distinct = distinct (function, representation, sub-check) / (function, op, vtree).",
+        "assumptions": ASSUME_COMMON + ["S3/S4: one prime and weight map per builder; collisions under 32-bit primes are recorded, not violations; ite/iff/xor/compose of SemanticSddBuilder are todo!() and excluded as in the property text"],
+    },
 }
